@@ -184,7 +184,10 @@ def choose(files, per_file, seed):
 def cmd_run(a):
     files = a.files.split(',') if a.files else sorted(FILE_CHECKS)
     files = [f if f.startswith('hotxlfp/') else 'hotxlfp/' + f for f in files]
-    plan = choose(files, a.per_file, a.seed)
+    run_plan(a, choose(files, a.per_file, a.seed))
+
+
+def run_plan(a, plan):
     done = set()
     out_path = os.path.join(HERE, a.out) if not os.path.isabs(a.out) else a.out
     os.makedirs(os.path.dirname(out_path), exist_ok=True)
@@ -249,6 +252,32 @@ def cmd_run(a):
         shutil.rmtree(tmp, ignore_errors=True)
 
 
+def cmd_rerun(a):
+    """re-test the survivors of an earlier run against the checks as they are now (mutants are re-located in the current source by
+    file, function, kind, old/new text and source line, so earlier fixes to the file do not matter)"""
+    import collections
+    want = collections.Counter()
+    for l in open(a.path):
+        d = json.loads(l)
+        if d['status'] == 'survived':
+            want[(d['file'], d['func'], d['kind'], d['old'], d['new'], d['src'])] += 1
+    files = sorted(set(k[0] for k in want))
+    plan = []
+    for f in files:
+        raw, ms = mutants_of(os.path.join(REPO, f))
+        keep = []
+        for m in ms:
+            k = (f, m['func'], m['kind'], m['old'], m['new'], m['src'])
+            if want[k] > 0:
+                want[k] -= 1
+                m['file'] = f
+                keep.append(m)
+        plan.append((f, raw, keep))
+    print('survivors to re-test: %d (not found again in the current source: %d)' % (sum(len(x[2]) for x in plan), sum(want.values())), flush=True)
+    a.files, a.per_file = ','.join(files), 0
+    run_plan(a, plan)
+
+
 def cmd_plan(a):
     files = a.files.split(',') if a.files else sorted(FILE_CHECKS)
     files = [f if f.startswith('hotxlfp/') else 'hotxlfp/' + f for f in files]
@@ -288,8 +317,14 @@ def main():
             p.add_argument('--max-checks', type=int, default=4)
     p = sub.add_parser('report')
     p.add_argument('path')
+    p = sub.add_parser('rerun')
+    p.add_argument('path')
+    p.add_argument('--out', required=True)
+    p.add_argument('--tier', default='quick')
+    p.add_argument('--check-seed', default='0')
+    p.add_argument('--max-checks', type=int, default=4)
     a = ap.parse_args()
-    {'plan': cmd_plan, 'run': cmd_run, 'report': cmd_report}[a.cmd](a)
+    {'plan': cmd_plan, 'run': cmd_run, 'report': cmd_report, 'rerun': cmd_rerun}[a.cmd](a)
 
 
 if __name__ == '__main__':
